@@ -31,6 +31,7 @@ func profiles() map[string]world.Profile {
 		"SearchFacts": 14, "ProcessEvent": 14, "ListRules": 5, "SearchRules": 5, "EnableRule": 5, "GetFact": 4}
 	lifecycle := map[string]int{"AddRule": 22, "RemRule": 8, "EnableRule": 14, "ProcessEvent": 30, "Reload": 6,
 		"SetKey": 3, "AddFact": 4, "RemFact": 3, "SetParents": 3, "GetRule": 3, "ListRules": 3}
+	dispatch := map[string]int{"AddFact": 22, "RemFact": 6, "AddRule": 18, "RemRule": 5, "ProcessEvent": 40, "EnableRule": 4, "SetParents": 3}
 	ids := []string{"f1", "f2", "f3"}
 	return map[string]world.Profile{
 		"facts":    {Name: "facts", Len: 40, Locs: []string{"A"}, Ids: ids, MaxFacts: 1000, Weights: facts},
@@ -40,6 +41,7 @@ func profiles() map[string]world.Profile {
 		"guards":   {Name: "guards", Len: 50, Locs: []string{"A"}, Ids: ids, Rules: true, Keys: true, MaxFacts: 1000, Weights: guards},
 		"capacity": {Name: "capacity", Len: 40, Locs: []string{"A"}, Ids: []string{"f1", "f2", "f3", "f4", "f5"}, Rules: true, MaxFacts: 3, Weights: capacity},
 		"lifecycle": {Name: "lifecycle", Len: 45, Locs: []string{"A", "B"}, Ids: []string{"r1", "r2"}, Rules: true, Parents: true, MaxFacts: 1000, Weights: lifecycle},
+		"dispatch": {Name: "dispatch", Len: 40, Locs: []string{"A", "B"}, Ids: []string{"r1", "r2", "r3", "f1", "f2"}, Rules: true, Dispatch: true, Parents: true, MaxFacts: 1000, Weights: dispatch},
 		"parents":  {Name: "parents", Len: 45, Locs: []string{"A", "B", "C"}, Ids: []string{"f1", "f2", "r1", "r2"}, Rules: true, Parents: true, MaxFacts: 1000, Weights: parents},
 	}
 }
@@ -83,7 +85,7 @@ func main() {
 				defer wg.Done()
 				defer func() { <-sem }()
 				for attempt := 0; attempt < 3; attempt++ {
-					g := &world.Gen{R: rand.New(rand.NewSource(*seed*1000003 + int64(i))), P: p}
+					g := &world.Gen{R: rand.New(rand.NewSource(*seed*1000003 + int64(i))), P: p, T: rec.T}
 					ctx := core.NewContext("verif")
 					ctx.Verbosity = core.NOTHING
 					ms, _ := core.NewMemStorage(ctx)
